@@ -8,13 +8,19 @@ DRV_SETUP = ["g = pycomm3.util.cycle(65535, 1)", "first = next(g)", "spec.seq.at
 contract(
     id="cycle.first", func="pycomm3.util.cycle", call="next(pycomm3.util.cycle(stop, start))",
     params={"stop": P.int(-70000, 70000), "start": P.int(-70000, 70000)}, requires=["start <= stop"],
-    ensures=["result == start"], no_entry_check=True, callsite=False, props=["C17"])
+    setup=["g0 = pycomm3.util.cycle(stop, start)"], ensures=["result == start"], no_entry_check=True, callsite=False, props=["C17"])
+contract(
+    id="cycle.first.state", func="pycomm3.util.cycle", call="next(g0)",
+    params={"stop": P.int(-70000, 70000), "start": P.int(-70000, 70000)}, requires=["start <= stop"],
+    setup=["g0 = pycomm3.util.cycle(stop, start)"], ensures=["result == start", "spec.seq.gen_val(g0) == start"],
+    no_entry_check=True, callsite=False, props=["C17"])
 contract(
     id="cycle.step", func="pycomm3.util.cycle", call="next(g)",
     params={"stop": P.int(-70000, 70000), "start": P.int(-70000, 70000), "v": P.int()},
     requires=["start <= stop", "start <= v", "v <= stop", "stop - start <= 66000"], setup=GEN_SETUP,
     ref="spec.seq.successor(v, start, stop)", compare=["result"],
-    ensures=["start <= result", "result <= stop", "implies(start < stop, result != v)"],
+    ensures=["start <= result", "result <= stop", "implies(start < stop, result != v)",
+             "spec.seq.gen_val(g) == result"],     # the state invariant the induction rests on: the frame holds the value just drawn
     no_entry_check=True, callsite=False, props=["C17"])
 
 # the driver's counter: 1..65535, so every count is a non-zero UINT
